@@ -389,6 +389,13 @@ class SymExec:
                     return ("func", m_)
             c = self.const_of(e, env)
             return self.lift(c, key)
+        if isinstance(e, ast.BinOp) and isinstance(e.op, ast.BitAnd):
+            # K & -(x & 1): minus a single bit is "all ones or zero", so the constant is kept exactly when the bit is set (branch-free conditional xor)
+            for neg, other in ((e.left, e.right), (e.right, e.left)):
+                if isinstance(neg, ast.UnaryOp) and isinstance(neg.op, ast.USub):
+                    x, k = self.ev(neg.operand, env), self.ev(other, env)
+                    if isinstance(x, BV) and x.width() <= 1 and isinstance(k, BV) and k.is_const():
+                        return BV([x.bit(0) if k.bit(i) == 1 else 0 for i in range(k.width())])
         if isinstance(e, ast.BinOp):
             a, b = self.ev(e.left, env), self.ev(e.right, env)
             if isinstance(a, Opq) or isinstance(b, Opq):
